@@ -204,6 +204,9 @@ var c14Cfgs = []c14IFS{
 	// an IFS character that is not valid UTF-8 (the words use the same byte, so
 	// that "the same character" does not depend on how invalid bytes are compared)
 	{true, "\xff ", " ", "\xff"},
+	// IFS characters above U+00FF whose low byte is an ASCII character
+	// (U+3000: NUL, U+FF0C: form feed, U+0120: space, U+4E2D: '-')
+	{true, "\u3000\uff0c", "", "\u3000"}, {true, "\u0120\u4e2d", "", "\u4e2d"},
 }
 
 func TestC14(t *testing.T) {
@@ -333,6 +336,13 @@ func TestC14(t *testing.T) {
 		if strings.Contains(ifs, "\xff") {
 			alpha = append(alpha, "\xff", "\xff\xff")
 		}
+		for _, r := range ifs {
+			if r > 0xff && r != utf8.RuneError {
+				// the ASCII character that shares its low byte, and its neighbour in the same block
+				alpha = append(alpha, string(rune(r&0x7f)), string(r+1), string(rune(r&0xff)))
+			}
+		}
+		tilde := rapid.IntRange(0, 9).Draw(rt, "tilde") == 0
 		text := rapid.Custom(func(t *rapid.T) string {
 			return strings.Join(rapid.SliceOfN(rapid.SampledFrom(alpha), 0, 5).Draw(t, "text"), "")
 		})
@@ -340,6 +350,11 @@ func TestC14(t *testing.T) {
 		k := rapid.IntRange(0, 9).Draw(rt, "nseg")
 		for i := 0; i < k; i++ {
 			c.Segs = append(c.Segs, ref.Seg{Text: text.Draw(rt, "seg"), Quoted: rapid.Bool().Draw(rt, "quoted")})
+		}
+		if tilde && c.Via == "ast" {
+			// a tilde-prefix that names nobody stays as it is, unquoted
+			c.Segs = append([]ref.Seg{{Text: "~_nobody_" + text.Draw(rt, "tildetail")}}, c.Segs...)
+			st.Class("word_with_failing_tilde_prefix")
 		}
 		if err := checkC14(c); err != nil {
 			fail(rt, "C14", "split", c, "%v", err)
